@@ -63,6 +63,18 @@ pub fn spawn_program(bus: &mut Bus, prng: &mut Rng, mix: &str, tokens: &Rc<Cell<
                 }
             }
         }
+        // C12: an echo pair whose payloads are containers of every shape (only with "versions")
+        if mix.split(',').any(|m| m == "versions") {
+            let scl = prng.below(n as u64) as usize;
+            let ccl = prng.below(n as u64) as usize;
+            let slot = Slot::new();
+            let latch = Latch::new(1);
+            let ctx = mk_ctx(bus, scl, format!("c{scl}.echosrv"), prng, tokens);
+            bus.spawn_app(ctx.name.clone(), roles::echo_server(ctx, 7, 7, slot.clone(), latch.clone()));
+            let ctx = mk_ctx(bus, ccl, format!("c{ccl}.echo"), prng, tokens);
+            bus.spawn_app(ctx.name.clone(), roles::echo_caller(ctx, slot, latch));
+            roles_n += 2;
+        }
         // channel pairs
         if want("channels") {
             for p in 0..prng.below(3) {
